@@ -20,6 +20,8 @@ func checkC20(c *Ctx) {
 	c.Rule("C20-R2", "ViewPort.SetContent: parent call only inside the four window tests, coordinates x-viewx+physx / y-viewy+physy; Fill covers [0,width)x[0,height) offset by the origin")
 	c.Rule("C20-R3", "BoxLayout: a method storing cells/orient/view sets changed or calls layout() before returning; Draw lays out under changed; Resize lays out")
 	c.Rule("C20-R4", "hLayout/vLayout: the remainder loop decrements resid every cycle; resid is zero when the total fill is zero")
+	c.Rule("C20-R5", "ViewPort.Resize clips the extent against the parent measured from the requested origin: width is the argument or (parent width - x), height the argument or (parent height - y)")
+	c.Expect("C20-R5", 2)
 	for r, n := range map[string]int{"C20-R1": 9, "C20-R2": 4, "C20-R3": 6, "C20-R4": 4} {
 		c.Expect(r, n)
 	}
@@ -38,6 +40,7 @@ func checkC20(c *Ctx) {
 		return out
 	}
 	vp := methods(vpOwner)
+	c20ResizeClip(c, p, vp["Resize"])
 	bl := methods(blOwner)
 	if len(vp) < 15 || len(bl) < 10 {
 		c.Undecided("C20-R1", "methods", "-", fmt.Sprintf("found %d ViewPort and %d BoxLayout methods", len(vp), len(bl)))
@@ -372,4 +375,68 @@ func flagReturnInfeasibleAfter(st ssa.Instruction, r *ssa.Return) bool {
 		}
 	}
 	return false
+}
+
+// c20ResizeClip: a child whose requested origin lies outside the parent keeps
+// its old origin; its extent then collapses because it is measured from the
+// requested origin.  Measured from anything else (the stored origin, say) the
+// child keeps a positive size at a stale position and overlaps its siblings.
+func c20ResizeClip(c *Ctx, p *Prog, fn *ssa.Function) {
+	if fn == nil {
+		c.Undecided("C20-R5", "ViewPort.Resize", "-", "not found")
+		return
+	}
+	// parent size
+	var size *ssa.Call
+	eachInstr(fn, func(in ssa.Instruction) {
+		if call, ok := in.(*ssa.Call); ok && call.Call.IsInvoke() && call.Call.Method.Name() == "Size" {
+			size = call
+		}
+	})
+	if size == nil || len(fn.Params) < 5 {
+		c.Undecided("C20-R5", "ViewPort.Resize:parent-size", p.pos(fn.Pos()), "call of the parent's Size() not found")
+		return
+	}
+	for i, dim := range []struct {
+		field string
+		org   *ssa.Parameter
+		ext   *ssa.Parameter
+	}{{"width", fn.Params[1], fn.Params[3]}, {"height", fn.Params[2], fn.Params[4]}} {
+		sts := storesTo(fn, vpOwner, dim.field)
+		ok := len(sts) == 1
+		detail := ""
+		if ok {
+			var check func(v ssa.Value, d int) bool
+			check = func(v ssa.Value, d int) bool {
+				v = derefCell(v)
+				if d > 4 {
+					return false
+				}
+				switch x := v.(type) {
+				case *ssa.Parameter:
+					return x == dim.ext
+				case *ssa.Phi:
+					for _, e := range x.Edges {
+						if !check(e, d+1) {
+							return false
+						}
+					}
+					return true
+				case *ssa.BinOp:
+					if x.Op == token.SUB {
+						ex, isEx := x.X.(*ssa.Extract)
+						if isEx && ex.Tuple == ssa.Value(size) && ex.Index == i && derefCell(x.Y) == ssa.Value(dim.org) {
+							return true
+						}
+					}
+					detail = "clipped to " + valName(x)
+					return false
+				}
+				detail = "stored from " + valName(v)
+				return false
+			}
+			ok = check(sts[0].Val, 0)
+		}
+		c.Check(ok, "C20-R5", "Resize:"+dim.field+"-clip", p.pos(fn.Pos()), "v."+dim.field+" is the requested extent or parent extent minus the requested origin "+detail)
+	}
 }
